@@ -708,6 +708,29 @@ func (r *labRun) waitQuiet(timeout time.Duration) bool {
 	}
 }
 
+// wedged names an endpoint that is open but is not reading its socket: its reader is not blocked in ReadFrom (it has
+// returned, or it is stuck in the middle of a datagram).  Called after waitQuiet has failed for several seconds.
+func (r *labRun) wedged() string {
+	for _, p := range []*labPeer{r.c, r.s} {
+		if p == nil {
+			continue
+		}
+		r.net.mu.Lock()
+		e := r.net.ends[p.name]
+		stuck := e != nil && !e.closed && !e.waiting
+		n := 0
+		if e != nil {
+			n = len(e.inbox)
+		}
+		r.net.mu.Unlock()
+		if stuck {
+			return fmt.Sprintf("endpoint %s stopped reading: %d datagrams unread, FSM status %d", p.name, n, p.status.Load())
+		}
+	}
+
+	return ""
+}
+
 func (r *labRun) closeAll() {
 	for _, p := range []*labPeer{r.c, r.s} {
 		if p == nil {
